@@ -77,10 +77,10 @@ def deepEqScalar : GoVal → GoVal → Option Bool
   | .int b1 a, .int b2 c => some (b1 == b2 && a == c)
   | .uint b1 a, .uint b2 c => some (b1 == b2 && a == c)
   | .float b1 a _ _, .float b2 c _ _ => some (b1 == b2 && a.eq c)
-  | .iface (some a), .iface (some c) => deepEqScalar a c
-  | .iface none, .iface none => some true
-  | .iface none, .iface (some _) => some false
-  | .iface (some _), .iface none => some false
+  | .iface _ (some a), .iface _ (some c) => deepEqScalar a c
+  | .iface _ none, .iface _ none => some true
+  | .iface _ none, .iface _ (some _) => some false
+  | .iface _ (some _), .iface _ none => some false
   | .str _, .bool _ | .str _, .int _ _ | .str _, .uint _ _ | .str _, .float _ _ _ _ => some false
   | .bool _, .str _ | .bool _, .int _ _ | .bool _, .uint _ _ | .bool _, .float _ _ _ _ => some false
   | .int _ _, .str _ | .int _ _, .bool _ | .int _ _, .uint _ _ | .int _ _, .float _ _ _ _ => some false
@@ -258,7 +258,7 @@ def validate (cfg : StructCfg) (structName : Bytes) (value : GoVal) (gather : Bo
   | .int bits z => nonStruct structName (.int bits z) gather st
   | .uint bits n => nonStruct structName (.uint bits n) gather st
   | .float bits f r1 r2 => nonStruct structName (.float bits f r1 r2) gather st
-  | .iface d => nonStruct structName (.iface d) gather st
+  | .iface t d => nonStruct structName (.iface t d) gather st
   | .slice t e n es => nonStruct structName (.slice t e n es) gather st
   | .array t e es => nonStruct structName (.array t e es) gather st
   | .map t k n es => nonStruct structName (.map t k n es) gather st
@@ -297,7 +297,7 @@ def existTop (cfg : StructCfg) (sn fname : Bytes) (v : GoVal) (isValidTvKind ski
   | .int bits z => pure (if z == 0 then st else existScalar sn fname cusMsg (.int bits z) isValidTvKind st)
   | .uint bits n => pure (if n == 0 then st else existScalar sn fname cusMsg (.uint bits n) isValidTvKind st)
   | .float bits f r1 r2 => pure (if f.isZero then st else existScalar sn fname cusMsg (.float bits f r1 r2) isValidTvKind st)
-  | .iface d => pure (if d.isNone then st else existScalar sn fname cusMsg (.iface d) isValidTvKind st)
+  | .iface t d => pure (if d.isNone then st else existScalar sn fname cusMsg (.iface t d) isValidTvKind st)
   | .other k t n z => pure (if z then st else existScalar sn fname cusMsg (.other k t n z) isValidTvKind st)
 
 /-- `exist` below a non-nil pointer: no further zero check, `RemoveValuePtr`, kind switch -/
@@ -316,7 +316,7 @@ def existStripped (cfg : StructCfg) (sn fname : Bytes) (v : GoVal) (isValidTvKin
   | .int bits z => pure (existScalar sn fname cusMsg (.int bits z) isValidTvKind st)
   | .uint bits n => pure (existScalar sn fname cusMsg (.uint bits n) isValidTvKind st)
   | .float bits f r1 r2 => pure (existScalar sn fname cusMsg (.float bits f r1 r2) isValidTvKind st)
-  | .iface d => pure (existScalar sn fname cusMsg (.iface d) isValidTvKind st)
+  | .iface t d => pure (existScalar sn fname cusMsg (.iface t d) isValidTvKind st)
   | .other k t n z => pure (existScalar sn fname cusMsg (.other k t n z) isValidTvKind st)
 
 /-- elements of a slice/array: `validate(path[i], elem, true)` -/
